@@ -198,7 +198,7 @@ PROPERTIES = {
     },
     'C19': {
         'main_scenarios': ['rfkicks'],
-        'units': [mainspec.MainWiring, mainspec.MapDispatch, mainspec.MainMaps, io.ProgramOptionsGetters, dynrf.CalcModulation, dynrf.DynRFLinearCtor, dynrf.DynRFSinCtor, dynrf.DynCalcKick, dynrf.DynApply, dynrf.GetPastModulation, io.HDF5AppendData2a,
+        'units': [mainspec.MainWiring, mainspec.MapDispatch, mainspec.MainMaps, io.ProgramOptionsGetters, dynrf.CalcModulation, dynrf.DynRFLinearCtor, dynrf.DynRFSinCtor, dynrf.DynCalcKick, dynrf.DynApply, dynrf.GetPastModulation, io.HDF5AppendData2a, io.HDF5FileSources, mainloop.MainLoop,
                   sm.RFCalcKick, sm.RFKickMapLinearCtor, sm.RFKickMapSinCtor],
         'lemmas': [dynrf.lemmas_c19],
         'level': 'other',
@@ -206,7 +206,7 @@ PROPERTIES = {
                  'so every kick equals the static kick; apply() computes the kick from the front entry, records exactly that entry and consumes it; getPastModulation returns all records and empties the list; '
                  'pure sinusoidal modulation has the configured amplitude and angular step',
         'assumptions': [A_IDEAL, A_LIB, DROPS, 'random draws are unconstrained reals', 'std::queue / std::vector models'],
-        'uncovered': ['HDF5File::appendRFKicks (library calls)'],
+        'uncovered': ['that the HDF5 library stores what DataSet::write is handed (HDF5File::appendRFKicks -> _appendData are under contract up to the library calls)'],
         'explanation': 'constructor-state and queue contracts of DynamicRFKickMap',
         'technique': TECH,
     },
